@@ -3,3 +3,5 @@ mod leaf;
 mod nopanic;
 mod roundtrip;
 mod arr;
+mod value_laws;
+mod strprobe;
